@@ -33,8 +33,8 @@ func vhSig(tag string, n int) *Signature {
 //
 //verif:prop C13
 //verif:param na quick=0..2 thorough=0..3
-//verif:param nb quick=0..2 thorough=0..3
-//verif:param nc quick=0..2 thorough=0..3
+//verif:param nb quick=0..2 thorough=0..2
+//verif:param nc quick=0..2 thorough=0..2
 //verif:summarize (*Signature).less (*Stack).less
 func VH_C13_SigLessSWO(na, nb, nc int) {
 	a, b, c := vhSig("a", na), vhSig("b", nb), vhSig("c", nc)
@@ -97,7 +97,7 @@ func vhMainCount(s *Signature) int {
 // closure, all map iteration orders) honours the relevance contract.
 //
 //verif:prop C13
-//verif:param k quick=2..3 thorough=2..4
+//verif:param k quick=2..3 thorough=2..3
 //verif:param level 0,3
 //verif:param nf quick=1..2 thorough=1..2
 //verif:param perm quick=0,5 thorough=0,5,7,23
@@ -119,3 +119,15 @@ func VH_C13_AggregateOrder(k, level, nf, perm int) {
 		}
 	}
 }
+
+// VH_C13_AggregateOrder4: four goroutines, one frame each (thorough).
+//
+//verif:prop C13
+//verif:tier thorough
+//verif:param k 4
+//verif:param level 0,3
+//verif:param nf 1
+//verif:param perm 0,23
+//verif:summarize (*Signature).similar (*Signature).equal (*Signature).less (*Stack).less
+//verif:replay-iters 200
+func VH_C13_AggregateOrder4(k, level, nf, perm int) { VH_C13_AggregateOrder(k, level, nf, perm) }
